@@ -5,19 +5,27 @@ from rules.dates_common import *
 
 DAYS = Poly.atom("days")
 ST = Sym("param", "settlement")
-LT0 = cel.cmp_sym("Lt", DAYS, Poly.const(0))          # days < 0
+LT0 = cel.cmp_sym("Lt", DAYS, Poly.const(0), True)          # days < 0 (i8)
 
 
-def counted(direction):
-    """(counter, date) after: c := 0, x := date; while c </> days { x := roll_dir(x +/- 1 day); c := c +/- 1 } — the date component."""
-    c, x = LV(1, True), LV(0)
+ACC = Sym("acc")
+
+
+def counted(direction, count=None):
+    """The date after |days| next-business-day steps: repeat(count; date; acc -> roll_dir(acc +/- 1 day)). `lib/cel.py` gives this one form to a counted
+    while loop (c from 0, c </> days, c +/- 1) and to `(0..n).fold(date, |acc, _| ..)`. On the days < 0 path the count may be spelt -days or |days|, on the
+    other path days or |days| (the path condition fixes the sign)."""
     if direction == "back":
-        cond = cel.cmp_sym("Gt", c, DAYS)
-        steps = [R("roll_backward_bus_day", S, OP("Sub", x, DAYS1)), c - Poly.const(1)]
+        step = R("roll_backward_bus_day", S, OP("Sub", ACC, DAYS1))
+        count = -DAYS if count is None else count
     else:
-        cond = cel.cmp_sym("Lt", c, DAYS)
-        steps = [R("roll_forward_bus_day", S, OP("Add", x, DAYS1)), c + Poly.const(1)]
-    return ITER(0, [D, Poly.const(0)], cond, steps)
+        step = R("roll_forward_bus_day", S, OP("Add", ACC, DAYS1))
+        count = DAYS if count is None else count
+    return Sym("repeat", count.key(), vkey(D), vkey(step))
+
+
+def counted_all(direction):
+    return [counted(direction), counted(direction, cel.func_atom("abs", DAYS))]
 
 
 def run(ck, facts, tier):
@@ -44,9 +52,9 @@ def run(ck, facts, tier):
                  all(((nb[0], False) in c) or ((nb_alt[0], True) in c) for c, _ in oks),
                  "add_bus_days does not reject a non-business start before doing anything else", where("add_bus_days"), detail=paths.fmt_paths(got)[:600],
                  sample="[is_non_bus_day(date)] -> Err ; all Ok paths under its negation")
-        back, fwd = counted("back"), counted("fwd")
-        want = {(True, False): Sym("ctor", "Ok", back), (True, True): Sym("ctor", "Ok", R("roll_backward_settled_bus_day", S, back)),
-                (False, False): Sym("ctor", "Ok", fwd), (False, True): Sym("ctor", "Ok", R("roll_forward_settled_bus_day", S, fwd))}
+        backs, fwds = counted_all("back"), counted_all("fwd")
+        want = {(True, False): [Sym("ctor", "Ok", b) for b in backs], (True, True): [Sym("ctor", "Ok", R("roll_backward_settled_bus_day", S, b)) for b in backs],
+                (False, False): [Sym("ctor", "Ok", f) for f in fwds], (False, True): [Sym("ctor", "Ok", R("roll_forward_settled_bus_day", S, f)) for f in fwds]}
         seen = {}
         for c, v in oks:
             dc = dict(c)
@@ -58,13 +66,13 @@ def run(ck, facts, tier):
             if v is None:
                 ck.fail(r3, key, "no path for this (sign, settlement) case: %s" % paths.fmt_paths(got)[:400], where("add_bus_days"))
                 continue
-            ck.check(r3, key, vkey(v) == vkey(w), "result is not %s" % cel.vfmt(w)[:300], where("add_bus_days"), detail="got %s" % cel.vfmt(v)[:600],
+            ck.check(r3, key, any(vkey(v) == vkey(w_) for w_ in w), "result is not %s" % cel.vfmt(w[0])[:300], where("add_bus_days"), detail="got %s" % cel.vfmt(v)[:600],
                      sample=("backward" if neg else "forward") + (" count then settled roll" if stl else " count"))
         # R05.2: the loop itself (direction-independent statement of the counted-step idiom)
         for neg, name in ((True, "backward"), (False, "forward")):
             v = seen.get((neg, False))
             inner = v.tag[2] if v is not None and len(v.tag) == 3 else None
-            ck.check(r2, "count-" + name, inner is not None and vkey(inner) == vkey(back if neg else fwd),
+            ck.check(r2, "count-" + name, inner is not None and any(vkey(inner) == vkey(x_) for x_ in (backs if neg else fwds)),
                      "the %s counting loop is not: c := 0; while c %s days { x := roll(x %s 1 day); c %s= 1 }" % (name, ">" if neg else "<", "-" if neg else "+", "-" if neg else "+"),
                      where("add_bus_days"), detail="got %s" % (cel.vfmt(inner)[:500] if inner is not None else None), sample="%d-step counted loop idiom" % 1)
     except Unsupported as e:
@@ -72,7 +80,7 @@ def run(ck, facts, tier):
 
     # ---------------- R05.4 lag
     r4 = ck.rule("R05.4", "lag: business start -> add_bus_days(date, days); otherwise days = 0 -> forward roll, days < 0 -> add_bus_days(backward roll, days+1), "
-                          "days > 0 -> add_bus_days(forward roll, days-1); settlement passed through", floor=4)
+                          "days > 0 -> add_bus_days(forward roll, days-1); settlement passed through", floor=5)
     try:
         got = ev_fn("lag", [S, D, DAYS, ST])
         ps = paths.flatten(got)
@@ -87,10 +95,16 @@ def run(ck, facts, tier):
             dc = dict(c)
             if dc.get(bus) is True:
                 seen["bus"] = v
-            else:
-                for a, pol in c:
-                    if isinstance(a, tuple) and a[0] == "arm" and pol and a[1] in ("Equal", "Less", "Greater"):
-                        seen[a[1]] = v
+                continue
+            # which sign of `days` does this path serve? decided from its literals over the whole i8 range (match on days.cmp(&0) or an if-chain alike)
+            feas, _ = paths.int_feasible(c, "days", range(-128, 128))
+            region = "Equal" if feas == [0] else "Less" if feas == list(range(-128, 0)) else "Greater" if feas == list(range(1, 128)) else None
+            if region and region not in seen:
+                seen[region] = v
+            elif feas:
+                seen["?"] = v
+        ck.check(r4, "lag:trichotomy", "?" not in seen, "the non-business branch does not split exactly into days < 0, days = 0, days > 0", where("lag"), detail=paths.fmt_paths(got)[:500],
+                 sample="paths partition the i8 range by sign")
         for k, w in want.items():
             v = seen.get(k)
             ck.check(r4, "lag[%s]" % k, v is not None and (vkey(v) == vkey(w) or vkey(v) == vkey(Sym("m", "expect", vkey(w.tag[2]) if w.tag[0] == "m" else None, ()))),
@@ -108,8 +122,14 @@ def run(ck, facts, tier):
         ps = paths.flatten(got)
         errs = [(c, v) for c, v in ps if isinstance(v, Sym) and v.tag[:2] == ("ctor", "Err")]
         oks = [(c, v) for c, v in ps if isinstance(v, Sym) and v.tag[:2] == ("ctor", "Ok")]
-        rej = vkey(Sym("or", *sorted([vkey(NOT(P("is_bus_day", S, START))), vkey(NOT(P("is_bus_day", S, END)))], key=repr)))
-        ck.check(r1, "bus_date_range", len(errs) == 1 and len(oks) == 1 and errs[0][0] == frozenset([(rej, True)]) and oks[0][0] == frozenset([(rej, False)]),
+        # one `a || b` guard or two sequential early returns alike: the Ok path holds exactly {start is a business day, end is a business day}; every other
+        # path is an Err decided by those two predicates alone
+        b_s, b_e = paths.lit(P("is_bus_day", S, START)), paths.lit(P("is_bus_day", S, END))
+        preds = {b_s[0], b_e[0]}
+        ok1 = len(oks) == 1 and paths.atoms(oks[0][0]) == frozenset([b_s, b_e]) and len(errs) >= 1 and len(errs) + len(oks) == len(ps)
+        ok1 = ok1 and all(any(paths.may_establish(c, (x[0], not x[1])) for x in (b_s, b_e)) for c, _ in errs)
+        ok1 = ok1 and all({a for a, _ in paths.atoms(c)} <= preds or any(isinstance(a, tuple) and a[:2] == ("sym", "or") for a, _ in c) for c, _ in errs)
+        ck.check(r1, "bus_date_range", ok1,
                  "bus_date_range does not reject non-business end points first", where("bus_date_range"), detail=paths.fmt_paths(got)[:500], sample="[non-bus start or end] -> Err")
         vec, x = LV(0), LV(1)
         want = ITER(0, [cel.Tup([]), START], Sym("cmp", "Le", vkey(x), vkey(END)),
